@@ -270,7 +270,7 @@ func (u *Unit) strConst(s string) Term {
 	if t, ok := u.strs[s]; ok {
 		return t
 	}
-	name := fmt.Sprintf("str!%d", len(u.strs))
+	name := fmt.Sprintf("strc!%d", len(u.strs))
 	t := u.sc.declare(name, SStr)
 	u.strs[s] = t
 	pre := []string{fmt.Sprintf("(= (strlen %s) (_ bv%d 64))", name, len(s))}
